@@ -1,5 +1,5 @@
 import TLVerif.Util.Hex
-import TLVerif.Packet.Reader
+import TLVerif.Packet.Script
 import TLVerif.Packet.Crc
 import TLVerif.Packet.Aes
 /-!
@@ -28,17 +28,12 @@ def realEnv : Env where
   enc k b := Aes.encBlock (Aes.expand k) b
   dec k b := Aes.decBlock (Aes.expand k) b
 
-inductive SOp where
-  | write (flush : Bool) (tip : Nat) (body : Bytes)
-  | flush
-  | mode (m : ModeOp)
-
 def hexNat? (s : String) : Option Nat :=
   s.toList.foldl (fun acc c => match acc, hexVal c with
     | some a, some d => some (a * 16 + d)
     | _, _ => none) (some 0)
 
-def parseSOp (s : String) : Option SOp :=
+def parseSOp (s : String) : Option Op :=
   match s.splitOn ":" with
   | ["w", t, b] => match hexNat? t, bytesOfHex b with
     | some t, some b => some (.write true t b) | _, _ => none
@@ -46,6 +41,7 @@ def parseSOp (s : String) : Option SOp :=
     | some t, some b => some (.write false t b) | _, _ => none
   | ["2", t, b1, b2] => match hexNat? t, bytesOfHex b1, bytesOfHex b2 with
     | some t, some b1, some b2 => some (.write true t (b1 ++ b2)) | _, _, _ => none
+  | ["r", b] => (bytesOfHex b).map .raw
   | ["f"] => some .flush
   | ["c"] => some (.mode .setCrcC)
   | ["e", k, iv] => match bytesOfHex k, bytesOfHex iv with
@@ -60,39 +56,17 @@ def parseAll {α β : Type} (f : α → Option β) : List α → Option (List β
     | some b, some bs => some (b :: bs)
     | _, _ => none
 
-def wApplyMode (w : WState) : ModeOp → WState
-  | .setProto v => { w with mode := { w.mode with proto := v } }
-  | .setCrcC => { w with mode := { w.mode with crcC := true } }
-  | .encrypt k iv => wEncrypt w k iv
-
-structure WRun where
-  w : WState
-  errs : List String := []             -- failed write ops `<index>:<err>`
-  sched : List (Nat × ModeOp) := []     -- (packets written before the op, op)
-  dead : Bool := false                 -- flush beyond the model (never happens)
-
 def WErr.name : WErr → String
   | .tooLarge => "large" | .size4 => "size4"
 
-def runWriter (e : Env) : List SOp → Nat → WRun → WRun
-  | [], _, r => r
-  | op :: ops, i, r =>
-    let r1 : WRun := match op with
-      | .write fl tip body =>
-        match writeNoFlush e r.w tip body with
-        | .error er => { r with errs := r.errs ++ [s!"{i}:{er.name}"] }
-        | .ok w1 =>
-          if fl then match flush w1 with
-            | none => { r with w := w1, dead := true }
-            | some w2 => { r with w := w2 }
-          else { r with w := w1 }
-      | .flush => match flush r.w with
-        | none => { r with dead := true }
-        | some w2 => { r with w := w2 }
-      | .mode m => { r with w := wApplyMode r.w m, sched := r.sched ++ [(r.w.n, m)] }
-    runWriter e ops (i + 1) r1
-
-def schedOf (l : List (Nat × ModeOp)) (k : Nat) : List ModeOp := (l.filter (·.1 == k)).map (·.2)
+/-- indices and kinds of the failed writes (the model of the run itself is `runW`) -/
+def writeErrs (e : Env) : List Op → Nat → WState → List String
+  | [], _, _ => []
+  | op :: ops, i, w =>
+    match stepW e w op with
+    | .ok w1 => writeErrs e ops (i + 1) w1
+    | .werr er => s!"{i}:{er.name}" :: writeErrs e ops (i + 1) w
+    | .dead => []
 
 def chunkBy : Nat → List Nat → List Nat → Bytes → List Bytes
   | 0, _, _, _ => []
@@ -122,50 +96,83 @@ def evStr : Ev → String
   | .packet t b => s!"p:{tipHex t}:{hexOfBytes b}"
   | .ping id => s!"g:{hexOfBytes id}"
 
-/-- the pong packets the reading end writes back (`ReadPacket` → `WritePacketBuiltin`) -/
+/-- the pong packets the reading end writes back (`ReadPacket` → `WritePacketBuiltin`): its own writer, subject
+to the same scheduled mode changes -/
 def pongs (e : Env) (sched : Nat → List ModeOp) : List Ev → Nat → WState → WState
   | [], _, w => w
   | ev :: evs, n, w =>
+    let w0 := (sched n).foldl (fun w m => (wApplyMode w m).getD w) w
     let w1 := match ev with
-      | .ping id => match writeNoFlush e w rpcPongTag id with
-        | .error _ => w
+      | .ping id => match writeNoFlush e w0 rpcPongTag id with
+        | .error _ => w0
         | .ok w1 => (flush w1).getD w1
-      | _ => w
-    pongs e sched evs (n + 1) ((sched (n + 1)).foldl wApplyMode w1)
+      | _ => w0
+    pongs e sched evs (n + 1) w1
+
+def showRes (e : Env) (sched : Nat → List ModeOp) (n0 : Nat) (mode : Mode) (res : List Ev × Option RErr) : String :=
+  let pw := pongs e sched res.1 n0 { n := n0, mode := mode }
+  let evs := (res.1.filter (fun ev => match ev with | .packet _ _ => true | _ => false)).map evStr ++
+    [match res.2 with | some er => "e:" ++ er.name | none => "e:fuel"]
+  s!"r={",".intercalate evs} pong={hexOfBytes (pw.wire e)}"
+
+def parseStart (st : String) : Option (Nat × Mode) :=
+  match st.splitOn ":" with
+  | [n0, pr, cc] => match n0.toNat?, pr.toNat?, cc.toNat? with
+    | some n0, some pr, some cc => some (n0, { proto := pr, crcC := cc != 0, enc := false })
+    | _, _, _ => none
+  | _ => none
 
 def conn (st script chunks cor : String) : String :=
-  match st.splitOn ":" with
-  | [n0, pr, cc] =>
-    match n0.toNat?, pr.toNat?, cc.toNat?, parseAll parseSOp (if script == "-" then [] else script.splitOn ","),
-          parseAll String.toNat? (chunks.splitOn ",") with
-    | some n0, some pr, some cc, some ops, some sizes =>
-      if sizes.any (· == 0) then "bad-op" else
-      let e := realEnv
-      let mode : Mode := { proto := pr, crcC := cc != 0, enc := false }
-      let wr := runWriter e ops 0 { w := { n := n0, mode := mode } }
-      match flush wr.w with
-      | none => "beyond-model"
-      | some wf =>
-        if wr.dead then "beyond-model" else
-        let wire := wf.wire e
-        match corrupt cor wire with
-        | none => "bad-op"
-        | some wire' =>
-          let sched := schedOf wr.sched
-          let cs := chunkBy (2 * wire'.length + 2) sizes sizes wire'
-          let src0 : CSrc := { chunks := cs }
-          let r0 := applyModeOps (chunkSrc e) { n := n0, mode := mode } src0 (sched n0)
-          let res := readAll (chunkSrc e) e sched (wire'.length + 2) r0.1 r0.2
-          let pw := pongs e sched res.1 n0 ((sched n0).foldl wApplyMode { n := n0, mode := mode })
-          let evs := (res.1.filter (fun ev => match ev with | .packet _ _ => true | _ => false)).map evStr ++ [match res.2 with | some er => "e:" ++ er.name | none => "e:fuel"]
-          let werrs := if wr.errs.isEmpty then "-" else ",".intercalate wr.errs
-          s!"wire={hexOfBytes wire} w={werrs} r={",".intercalate evs} pong={hexOfBytes (pw.wire e)}"
-    | _, _, _, _, _ => "bad-op"
-  | _ => "bad-op"
+  match parseStart st, parseAll parseSOp (if script == "-" then [] else script.splitOn ","),
+        parseAll String.toNat? (chunks.splitOn ",") with
+  | some (n0, mode), some ops, some sizes =>
+    if sizes.any (· == 0) then "bad-op" else
+    let e := realEnv
+    let w0 : WState := { n := n0, mode := mode }
+    match finalW e ops w0 with
+    | none => "beyond-model"
+    | some wf =>
+      let wire := wf.wire e
+      match corrupt cor wire with
+      | none => "bad-op"
+      | some wire' =>
+        let sched := schedOfOps e ops w0
+        let cs := chunkBy (2 * wire'.length + 2) sizes sizes wire'
+        let res := readLoop (chunkSrc e) e sched (wire'.length + 2) { n := n0, mode := mode } { chunks := cs }
+        let errs := writeErrs e ops 0 w0
+        let werrs := if errs.isEmpty then "-" else ",".intercalate errs
+        s!"wire={hexOfBytes wire} w={werrs} {showRes e sched n0 mode res}"
+  | _, _, _ => "bad-op"
+
+/-- reader only, on an arbitrary stream: `<n0>:<proto>:<crcC> <mode ops|-> <stream> <chunks>` -/
+def readOnly (st modes stream chunks : String) : String :=
+  match parseStart st, parseAll parseSOp (if modes == "-" then [] else modes.splitOn ","), bytesOfHex stream,
+        parseAll String.toNat? (chunks.splitOn ",") with
+  | some (n0, mode), some ops, some wire, some sizes =>
+    if sizes.any (· == 0) then "bad-op" else
+    let e := realEnv
+    let ms := ops.filterMap (fun o => match o with | .mode m => some m | _ => none)
+    if ms.length ≠ ops.length then "bad-op" else
+    let sched := fun k => if k = n0 then ms else []
+    let cs := chunkBy (2 * wire.length + 2) sizes sizes wire
+    let res := readLoop (chunkSrc e) e sched (wire.length + 2) { n := n0, mode := mode } { chunks := cs }
+    showRes e sched n0 mode res
+  | _, _, _, _ => "bad-op"
+
+/-- `WritePacketHeaderUnlocked` length validation -/
+def wlen (proto len : String) : String :=
+  match proto.toNat?, len.toNat? with
+  | some p, some l =>
+    match checkBodyLen { proto := p } l with
+    | some er => "err " ++ er.name
+    | none => "ok"
+  | _, _ => "bad-op"
 
 def handle (op : String) (args : List String) : String :=
   match op, args with
   | "conn", [st, script, chunks, cor, _rb, _wb] => conn st script chunks cor
+  | "read", [st, modes, stream, chunks, _rb] => readOnly st modes stream chunks
+  | "wlen", [p, l] => wlen p l
   | _, _ => "bad-op"
 
 end TLVerif.Packet
